@@ -850,7 +850,7 @@ func c13RandomNumberish(rng *Rng) string {
 
 func runC13(ctx *Ctx) *Result {
 	res := &Result{Rule: "a case is (pattern, word) for Compile+Match, (p, q, word) for Intersect/CanMatch, a word for Number(), a pattern for mayMatchNumber; " +
-		"Intersect trees: all ordered triples of patterns of <=2 bytes over {a b * ?} in both association orders x all words of <=4 bytes over {a b}, then seeded random trees of 3-5 leaves (leaves: patterns of <=4 bytes over {a b *}, random patterns, Number()); exhaustive: all patterns of <=L bytes over {a b 0 9 * ? [ ] ^ - \\ .} x all words of <=3 bytes over the bytes of the pattern plus '5' and 'Q'; all ordered pairs of compilable patterns of <=M bytes x the same words; all words of <=5 bytes over {+ - 0 1 9 . e E x X a f p} for Number(); all patterns of <=3 bytes over {0 1 . e x + - * ? [ ] ^ a \\} for mayMatchNumber; " +
+		"Intersect trees: all ordered triples of patterns of <=2 bytes over {a * ?} (thorough: {a b * ?}) in both association orders x all words of <=4 bytes over {a b}, then seeded random trees of 3-5 leaves (leaves: patterns of <=4 bytes over {a b *}, random patterns, Number()); exhaustive: all patterns of <=L bytes over {a b 0 9 * ? [ ] ^ - \\ .} x all words of <=3 bytes over the bytes of the pattern plus '5' and 'Q'; all ordered pairs of compilable patterns of <=M bytes x the same words; all words of <=5 bytes over {+ - 0 1 9 . e E x X a f p} for Number(); all patterns of <=3 bytes over {0 1 . e x + - * ? [ ] ^ a \\} for mayMatchNumber; " +
 		"then a fixed corpus and seeded random patterns of 3-10 elements (lists, ranges in both orders, bytes >= 0x80, cut-off patterns) with 12 words each derived from the pattern; " +
 		"non-trivial = the pattern contains one of * ? [ \\ (single patterns), every (p, q, word) and every Number() word; counted per distinct case"}
 	rng := NewRng(ctx.Seed)
@@ -1012,9 +1012,9 @@ func runC13(ctx *Ctx) *Result {
 	floor("canmatch_false", 1000)
 	floor("number_true", 1000)
 	floor("sweep_triples", 100000)
-	floor("tree_matches_true", 10000)
-	floor("tree_canmatch_true", 1000)
-	floor("tree_canmatch_false", 1000)
+	floor("tree_matches_true", 5000)
+	floor("tree_canmatch_true", 500)
+	floor("tree_canmatch_false", 500)
 	floor("mmn_true", 100)
 	floor("mmn_false", 100)
 	floor("mmn_error", 100)
